@@ -179,6 +179,18 @@ CHECKS = {
          "it does not reason about the float kernel; near ties (< 1e-9) of the two best correlations are outside the claim.",
     technique="symbolic execution of real code (CrossHair/z3); enumeration by realisation for the numeric kernels",
     ref="DESIGN.md §I.5 C17"),
+ "C18": dict(
+    text="PARTIAL (second sentence of the property only): symbolic execution of to_matched_score / get_matched_notes / "
+         "get_time_maps_from_alignment on a concrete four-note score array and alignment shape per instance (matches in any order, "
+         "deletion, insertion, ornament, ids missing on either side) with a symbolic performance (onsets and durations in ms, velocities): "
+         "the table pairs exactly the matches whose ids exist on both sides, ordered by score onset then pitch, with the performed "
+         "onset / duration / velocity of the pair; both time maps pass through the matched score onsets and the mean performed onset of "
+         "each chord. Path trees exhausted per instance.",
+    note="The encode / decode chain of the first sentence (float32, log2, 2**x, mean / std, symbolic-by-symbolic division over ~600 lines of "
+         "vectorised numpy) is NOT claimed: non-linear with transcendental terms, no sound bounded encoding within reach. Maps are queried at "
+         "their knots only; floats are reals.",
+    technique="symbolic execution of real code (CrossHair/z3), partial",
+    ref="DESIGN.md §I.5 C18"),
  "C03": dict(
     text="PARTIAL (second sentence of the property only): symbolic execution of the exporter's measure linearisation "
          "(linearize_measure_contents / linearize_segment_contents / remove_voice_polyphony / make_note_el / add_chord_tags / "
@@ -195,7 +207,6 @@ CHECKS = {
 }
 NOT_APPLICABLE = {
  "C19": "MEI/kern loaders work on lxml documents and text lines; the only solver-reachable kernels (kern reciprocal/dot arithmetic, pitch letter counting, MEI duration tables) are table look-ups with nothing left for a solver but enumeration, and dot_function divides symbolic by symbolic (DESIGN.md §2 C19)",
- "C18": "float32/transcendental codec chain (log2, 2**x, mean/std, symbolic/symbolic division) over ~600 lines of vectorised numpy: non-linear with transcendental terms, z3 answers unknown; no sound bounded encoding within reach (DESIGN.md §2 C18)",
 }
 
 def main():
